@@ -3,10 +3,13 @@ import collections
 import random
 
 import core
+import decsuite as ds
 import gen
 import suites
 
-THEOREMS = ["decode_ok", "C01.c01_walker", "C01.c01_top", "intOfBytes_intToBytes", "intToBytes_length"]
+THEOREMS = ["decode_ok", "C01.c01_walker", "C01.c01_top", "intOfBytes_intToBytes", "intToBytes_length",
+            "decodeArea_ok", "decodeSized_ok", "decodeCommand_ok", "decodeResponse_ok", "decodeStream_ok",
+            "MsgWF.c01_command_walker", "MsgWF.c01_command", "MsgWF.c01_response", "MsgWF.c09_stream", "MsgWF.tag_sizes"]
 
 
 def run(ctx, replay_case):
@@ -32,19 +35,50 @@ def run(ctx, replay_case):
         ctx.violations.append({"kind": "correspondence", "what": "model and implementation disagree on a well-formed encoding",
                                "replay": {"correspondence": "DEC strict G1", "type": cases[i][0], "hex": cases[i][2].hex(),
                                           "model": e, "impl": g, "disagreements": len(res["corr"])}})
+    # --- whole messages: commands, responses (under their command's code and encryption flag) and exchanges as streams.
+    # (a) model == implementation; (b) the implementation returns the object the generator built and ends cleanly;
+    # (c) the message-level specification (`specCommand` / `specResponse` / `specStream`, the hypothesis of the message
+    #     theorems) accepts the message and dictates exactly these bytes and this many events
+    _, M, mcases = ds.wellformed(rnd, ctx.tier, structs=False, messages=True, streams=True, per_cc=1 if ctx.tier == "quick" else 6)
+    mres = ds.run_both(mcases, "S")
+    mimpl, mmodel = mres["S"]
+    ds.correspondence_violation(ctx, "DEC strict (well-formed messages)", mcases, "S", mimpl, mmodel)
+    mspec = core.run_model([f"MSPEC {c.tname} {c.cc if c.cc is not None else '-'} {1 if c.enc else 0} {c.data.hex()}" for c in mcases])
+    spec_bad = 0
+    msg_bad = 0
+    for c, im, sp in zip(mcases, mimpl, mspec):
+        nev = sum(1 for l in im if l.startswith("M "))
+        want_r = "R done obj=None" if c.kind == "wf_stream" else f"R done obj={gen.obj_str(c.val)}"
+        if im[-1] != want_r or any(l.startswith("W ") for l in im):
+            msg_bad += 1
+            if msg_bad <= 3:
+                ctx.violations.append({"kind": "concrete", "signature": f"decode:{c.kind}",
+                                       "what": f"a well-formed {c.tname} does not decode cleanly to the object the layout dictates",
+                                       "replay": {**c.replay("S"), "expected": want_r[:400], "observed": im[-1][:400]}})
+        elif sp != [f"MS ok bytes={len(c.data)} events={nev}"]:
+            spec_bad += 1
+            if spec_bad <= 3:
+                ctx.violations.append({"kind": "correspondence",
+                                       "what": "the message-level specification does not dictate what the implementation decodes from a well-formed message",
+                                       "replay": {"correspondence": "MSPEC", **c.replay("S"), "model": sp[0] if sp else "<none>",
+                                                  "impl": f"{len(c.data)} bytes, {nev} events, {im[-1][:80]}"}})
     kinds = collections.Counter(L["types"][k]["kind"] for k, _, _ in cases)
     sizes = collections.Counter(min(len(b) // 16 * 16, 256) for _, _, b in cases)
     ctx.stats.update({
-        "evaluations": len(cases),
+        "evaluations": len(cases) + len(mcases),
         "distinct_nontrivial": len({(k, b) for k, _, b in cases if len(b) > 0}),
         "rule": "G1: conforming value trees per the pinned layout for every non-union type incl. the 468 handle/parameter "
                 "areas (random draws + one per boundary value of every union selector); oracle = Lean `spec` over the "
                 "pinned tables (events, offsets, object), compared with the implementation's strict decode incl. "
-                "pull counts; distinct = distinct (type, encoding), non-trivial = non-empty encoding",
+                "pull counts; distinct = distinct (type, encoding), non-trivial = non-empty encoding.  "
+                "Messages: a command, its response and the exchange as a stream for every command code (sessions, parameter encryption, "
+                "failed responses mixed): model == implementation, clean end with the generator's object, and the Lean message "
+                "specification accepts the message with exactly its bytes and event count",
         "samples": [{"type": k, "hex": b.hex()[:80]} for k, _, b in cases[:: max(1, len(cases) // 6)]][:6],
         "correspondence": {"ops": len(cases), "model_vs_impl_disagreements": len(res["corr"]),
-                           "impl_vs_spec_disagreements": len(res["monitor"])},
-        "distribution": {"types_covered": len({k for k, _, _ in cases}), "types_without_value": novalue,
+                           "impl_vs_spec_disagreements": len(res["monitor"]),
+                           "message_ops": len(mcases), "message_spec_rejections_or_mismatches": spec_bad},
+        "distribution": {"messages": ds.kinds_distribution(mcases), "message_monitor_failures": msg_bad, "types_covered": len({k for k, _, _ in cases}), "types_without_value": novalue,
                          "by_kind": dict(kinds), "encoding_length_buckets": {str(k): v for k, v in sorted(sizes.items())}},
     })
 
@@ -54,5 +88,7 @@ PROP = {
     "module": "TpmProofs.Props.C01",
     "theorems": THEOREMS,
     "run": run,
-    "assumptions": ["conformance of a value tree to a layout is `spec … = some _` (TpmModel/Spec.lean)"],
+    "assumptions": ["conformance of a value tree to a layout is `spec … = some _` (TpmModel/Spec.lean); well-formedness of a message is "
+                    "`specCommand` / `specResponse` / `specStream … = some _` (TpmModel/MsgSpec.lean); the check measures on generated "
+                    "messages that these predicates accept what the generator and the implementation regard as well-formed"],
 }
